@@ -96,3 +96,27 @@ Proof.
       destruct Hin as [E|[E|[E|[E|[]]]]]; inversion E; subst; try discriminate Hr; vm_compute; discriminate.
   - vm_compute. repeat split.
 Qed.
+
+(* C18_reentry_balanced_straightline: callee (arity 1) = ScalarNil; CopyLast; Pop; Return at position 0, called by a
+   host function through run_function with the stack [9; f] ++ [4] *)
+From Cao Require Import VmReentryPushes.
+Definition w_prog2 : program := mkProgram [7; 9; 16; 22; 10]%N [] [(77%N, 0%N)] [] [] [].
+Definition w_bal : state := set_rem (w_push [VInt 9; VObj 2; VInt 4]) 100.
+Example reentry_balanced_straightline_witness :
+  stack_ok w_bal /\ stack_of w_bal = [VInt 9; VObj 2] ++ [VInt 4] /\ length [VInt 4] = N.to_nat 1 /\
+  hget (st_heap w_bal) 2 = Some (callee_obj false 77 1 []) /\ assoc 77%N (p_labels w_prog2) = Some 0%N /\
+  S (length (st_calls w_bal)) < call_stack_size /\ (code_len w_prog2 <> 0)%N /\
+  nth (N.to_nat (last_pos w_prog2)) (p_code w_prog2) 255%N = 10%N /\ st_open w_bal = None /\
+  body_height [7; 9; 16]%N (length [VInt 4]) = Some (S 1) /\
+  (forall i, i < 3 -> nth (N.to_nat 0 + i) (p_code w_prog2) 255%N = nth i [7; 9; 16]%N 255%N) /\
+  nth (N.to_nat 0 + 3) (p_code w_prog2) 255%N = 22%N /\ N.to_nat 0 + 3 < length (p_code w_prog2) /\
+  (N.of_nat 3 + 3 <= st_rem w_bal)%N /\ length [VInt 9; VObj 2] + 1 + 3 + 1 < cap w_bal /\
+  exists s', run_function w_prog2 (fun ip st => loop toy_ops Debug w_prog2 w_re (3 + 2) ip st)
+                          (fun _ st => NStop AUnmodelled st) (VObj 2) w_bal = NOk VNil s' /\
+             stack_of s' = [VInt 9; VObj 2] /\ st_calls s' = [].
+Proof.
+  split; [unfold stack_ok, vs_inv; vm_compute; lia|].
+  repeat (split; [first [reflexivity | vm_compute; lia | vm_compute; discriminate
+                         | (intros [|[|[|i]]] Hi; [reflexivity|reflexivity|reflexivity|lia])]|]).
+  eexists. vm_compute. repeat split.
+Qed.
